@@ -8,12 +8,13 @@ from .. import progs, features
 
 ID = "C01"
 LEAN_MODULES = ["PycModel.Properties.C01"]
-NAMESPACES = ["PycModel.C01", "PycModel.Tables", "PycModel.C09"]
+NAMESPACES = ["PycModel.C01", "PycModel.Tables", "PycModel.C09", "PycModel.FullExpr", "PycModel.StmtSkel"]
 REQUIRED_THEOREMS = ["PycModel.C09.impl_keywords", "PycModel.C09.impl_punctuators", "PycModel.Tables.model_decl_start",
-                     "PycModel.Tables.model_starts_expression", "PycModel.Tables.model_starts_statement"]
+                     "PycModel.Tables.model_starts_expression", "PycModel.Tables.model_starts_statement",
+                     "PycModel.C01.wellformed_expressions_are_accepted", "PycModel.C01.wellformed_statements_are_accepted"]
 LEVEL = "proof"
 TRUSTED = ["validity of the generated programs: they are renderings of the Lean specifications of C99 6.5 / 6.7.5 / 6.8 (Spec/*.lean); the hand-written feature list is validated with gcc -fsyntax-only -pedantic-errors"]
-ASSUMPTIONS = ["acceptance theorem for all derivable translation units (C01.Full) is not proved; what is kernel-checked are the vocabulary / FIRST-set obligations"]
+ASSUMPTIONS = ["acceptance theorem for all derivable translation units (C01.Full) is not proved; proved for inputs of any size: acceptance of every expression above type names and of every statement without declarations (C01.wellformed_*_are_accepted); kernel-checked besides: the vocabulary / FIRST-set obligations"]
 
 
 def accepts(text):
